@@ -239,7 +239,7 @@ struct vf_sv<gch::small_vector<T, N, A>> {
     vf_assert((std::size_t)(v.cend() - v.cbegin()) == sz, "C02: cend()-cbegin() == size()");
     vf_assert((std::size_t)(v.rend() - v.rbegin()) == sz, "C02: rend()-rbegin() == size()");
     vf_assert(v.empty() == (sz == 0), "C02: empty() iff size()==0");
-    if (expect_id_known) vf_assert(id_of(v) == expect_id, "C07: get_allocator() is the expected allocator");
+    if (expect_id_known) vf_assert(v.get_allocator() == A((int)expect_id), "C07: get_allocator() is the expected allocator");
     for (std::size_t i = 0; i < VF_MAXCAP; ++i) if (i < cap) {
       if (i < sz) {
         vf_assert(&v[i] == d + i, "C02: &v[i] == data()+i");
